@@ -20,9 +20,15 @@ The rows of R3 are the success outcomes of cached_layer split on every private h
 returned value or a dominating decision depends on (C01_helpers.outcomes2), located by call frame; written values are read
 in normal form (C01_helpers.norm / frame_of), the dispatch into the handler is read as an effect of the entry points.  None
 of it depends on how the handler is cut into functions or on which of `x.f = v` / `S { f: v, ..rest of x }` is written.
+
+Effects are taken from C01_helpers.Effects2 and path classes from C01_helpers.WorklistPaths: a directory traversal driven
+by an explicit stack (a local work-list that is drained before the function succeeds) yields the same MUST effects and
+the same path classes as the recursive spelling — by the work-list's drain theorem and its inductive element invariant,
+both checked on the facts — and private helpers / constructors that only compute paths are transparent wherever they
+occur in a path value (inline_deep normal form).
 """
 from .lib.effects import Effects, MUTATING, REMOVING
-from .C01_helpers import outcomes2, norm, frame_of
+from .C01_helpers import outcomes2, norm, frame_of, Effects2, WorklistPaths
 from .lib.paths import LayerPaths, cls_str, strip, sbom_formats_covered
 from .lib.value import vstr, walk
 
@@ -33,8 +39,9 @@ INVALID = 'libcnb::layer::struct_api::InvalidMetadataAction'
 LAYER_REF_WRITERS = r'^libcnb::layer::struct_api::LayerRef::<B, MAC, RAC>::(write_metadata|write_env|write_sboms|write_exec_d_programs)$'
 
 
-def entry_paths(entry):
-    """LayerPaths for BuildContext::{cached,uncached}_layer(&self, layer_name, layer_definition)"""
+def entry_paths(entry, E=None):
+    """LayerPaths for BuildContext::{cached,uncached}_layer(&self, layer_name, layer_definition); with E, paths taken from
+    the elements of a work-list (an explicit-stack traversal) are classified by the work-list's invariant"""
     def is_ld(v):
         return v[0] == 'field' and v[2] == 'layers_dir' and v[1][0] == 'param' and v[1][1] == entry.path and v[1][2] == 0
 
@@ -42,10 +49,10 @@ def entry_paths(entry):
         if v[0] == 'param' and v[1] == entry.path and v[2] == 1:
             return True
         return False
-    return LayerPaths(is_ld, is_ln)
+    return WorklistPaths(is_ld, is_ln, (), E)
 
 
-def layer_ref_paths(fn):
+def layer_ref_paths(fn, E=None):
     """LayerPaths for LayerRef methods: LD = self.layers_dir, LN = self.name, DIR also = self.path()"""
     def is_self(v):
         return v[0] == 'param' and v[1] == fn.path and v[2] == 0
@@ -58,7 +65,7 @@ def layer_ref_paths(fn):
 
     def is_dir(v):
         return v[0] == 'call' and v[1].endswith('LayerRef::<B, MAC, RAC>::path') and is_self(v[2][0])
-    return LayerPaths(is_ld, is_ln, (is_dir,))
+    return WorklistPaths(is_ld, is_ln, (is_dir,), E)
 
 
 def definition_field(entry, v, name):
@@ -135,12 +142,12 @@ def run(ctx, rep):
     from .lib.paths import LayerPaths as _LP
     ROLES = layer_roles.roles(prog, sl)
     _LP.sbom_path_fn = ROLES['SBOM_PATH'] or _LP.sbom_path_fn
-    E = Effects(prog, sl)
+    E = Effects2(prog, sl)
     cl = prog.find_one(CL)
     ul = prog.find_one(UL)
     rep.analysed(cl)
     rep.analysed(ul)
-    LP = entry_paths(cl)
+    LP = entry_paths(cl, E)
     # private helpers of the handler's own module whose Option/Result payload is handed on count as part of the handler
     hmod = (ROLES['STRUCT_HL'] or '').rsplit('::', 1)[0]
     # (outcomes2: case split on every such helper the returned value or the dominating decisions depend on, so the rows
@@ -163,7 +170,7 @@ def run(ctx, rep):
             rep.unproven('R3', 'row:' + r, cl.file, 'success outcome with unrecognised decision shape (%d outcome(s))' % len(rows[r]))
 
     def klass(e):
-        return LP.classify(e.path) if e.path is not None else None
+        return LP.classify_effect(e) if e.path is not None else None
 
     def has(effs, kinds, cls_pred):
         return [e for e in effs if e.kind in kinds and cls_pred(klass(e))]
@@ -333,13 +340,13 @@ def run(ctx, rep):
     # ---- R7 confinement ---------------------------------------------------------------------------
     n_mut = 0
     for entry in (cl, ul):
-        lp = entry_paths(entry)
+        lp = entry_paths(entry, E)
         seen = set()
         for e in E.expand(entry, 'may'):
             if e.kind not in MUTATING:
                 continue
             n_mut += 1
-            k = lp.classify(e.path)
+            k = lp.classify_effect(e)
             key = (e.call.fn.path, e.call.name, cls_str(k))
             if key in seen:
                 continue
@@ -357,10 +364,10 @@ def run(ctx, rep):
     classes = set()
     for f in prog.find(LAYER_REF_WRITERS):
         rep.analysed(f)
-        lp = layer_ref_paths(f)
+        lp = layer_ref_paths(f, E)
         for e in E.expand(f, 'may'):
             if e.kind in ('WRITE', 'MKDIR'):
-                k = lp.classify(e.path)
+                k = lp.classify_effect(e)
                 top = k
                 while top is not None and top[0] in ('SUB', 'CHILD'):
                     top = top[1]
@@ -375,7 +382,7 @@ def run(ctx, rep):
     # ---- R9 uncached ------------------------------------------------------------------------------
     # the dispatch into the handler is an effect of the entry point: its arguments are read in the entry's own terms
     # whether the call is written in the entry or in a private helper between the two
-    E9 = Effects(prog, sl, vocab={ROLES['STRUCT_HL']: ('DISPATCH', None)}) if ROLES['STRUCT_HL'] else E
+    E9 = Effects2(prog, sl, vocab={ROLES['STRUCT_HL']: ('DISPATCH', None)}) if ROLES['STRUCT_HL'] else E
 
     def dispatches(entry):
         return [e for e in E9.expand(entry, 'may') if e.kind == 'DISPATCH' and e.args is not None and len(e.args) >= 5]
